@@ -71,6 +71,16 @@ func main() {
 			wg.Wait()
 		}
 	}
+	// deep + concurrent: G goroutines are all inside one deeply nested shared formula at the same
+	// time (a barrier host function at the innermost level makes the overlap certain)
+	deepRuns, deepMismatch := checks.C09DeepBarrier(16, 600)
+	runs += deepRuns
+	if deepMismatch != "" {
+		mismatches++
+		if firstMismatch == "" {
+			firstMismatch = deepMismatch
+		}
+	}
 	changed := checks.C09SharedUnchanged()
 	rep := map[string]interface{}{
 		"ok": mismatches == 0 && changed == "", "body_executions": runs, "bodies": len(names), "mismatches": mismatches,
